@@ -289,32 +289,35 @@ class Extractor:
                 edits.append((fm.end(), fm.end(), "vf_it: "))
             edits.append((loops[n][2], loops[n][2], "\n" + ltext.rstrip() + "\n"))
             self.transforms.add("T6")
-        # hints
-        for hi, h in enumerate(self.sidecar.hints):
-            if h["qual"] != qual:
-                continue
+        # hints: ghost code anchored on a line of the body.  If ANY hint of this function lost its anchor, all hints of the
+        # function are dropped (they may share ghost variables) and the function is verified without them; failures in
+        # it are then UNDECIDED (main.py), success means the edit was harmless.
+        body_lines = []
+        off = it.body_open
+        for ln in ot.text[it.body_open:it.body_close + 1].split("\n"):
+            body_lines.append((off, ln))
+            off += len(ln) + 1
+        mine = [(hi, h) for hi, h in enumerate(self.sidecar.hints) if h["qual"] == qual]
+        placed = []
+        lost_here = []
+        for hi, h in mine:
             anchor = rs.norm_ws(h["anchor"])
-            # search line-wise inside the body
-            body_lines = []
-            off = it.body_open
-            for ln in ot.text[it.body_open:it.body_close + 1].split("\n"):
-                body_lines.append((off, ln))
-                off += len(ln) + 1
             hits = [(o, ln) for (o, ln) in body_lines if anchor in rs.norm_ws(ln)]
-            if len(hits) <= h["nth"]:
-                # a proof hint is ghost code: when its anchor statement was edited away the hint is dropped and the
-                # function is verified without it.  If everything still discharges the edit was harmless; failures in
-                # this function are then reported as UNDECIDED (refactoring and defect cannot be told apart).
-                self.lost_hints.append((qual, h["anchor"]))
-                self.used_hints.add(hi)
-                continue
-            o, ln = hits[h["nth"]]
             self.used_hints.add(hi)
-            self.transforms.add("T10")
-            if h["where"] == "after":
-                edits.append((o + len(ln), o + len(ln), "\n" + h["text"].rstrip()))
+            if len(hits) <= h["nth"]:
+                lost_here.append(h["anchor"])
             else:
-                edits.append((o, o, h["text"].rstrip() + "\n"))
+                placed.append((h, hits[h["nth"]]))
+        if lost_here:
+            for a_ in lost_here:
+                self.lost_hints.append((qual, a_))
+        else:
+            for h, (o, ln) in placed:
+                self.transforms.add("T10")
+                if h["where"] == "after":
+                    edits.append((o + len(ln), o + len(ln), "\n" + h["text"].rstrip()))
+                else:
+                    edits.append((o, o, h["text"].rstrip() + "\n"))
         return ot.apply(edits)
 
     # -- main
